@@ -21,6 +21,55 @@ def run(fx, rep, tier):
     terms = rule_inv(fx, rep)
     rule_same(fx, rep, terms)
     rule_writers(fx, rep)
+    rule_init(fx, rep)
+
+
+def rule_init(fx, rep):
+    """The accumulator is seeded from scratch when a position is built (IncrementalEvalFields::init) and then only moved by
+    differences, so the tables those functions read (piece-square values, phase weights) must already hold their final
+    values when the first position can be built - otherwise the base value is computed from all-zero tables and every later
+    difference carries the error along (seed C15-5a). Every writer of a `static mut` read in the cone of the accumulator's
+    functions must lie in the cone of a call that `main` makes before run() (shared with C12-STATICS)."""
+    import pC12
+    from facts import static_accesses
+    su = pC12.startup_cone(fx)
+    roots = [b.name for b in fx.fn_bodies() if "IncrementalEvalFields" in norm(b.name) and "::tests::" not in b.name and b.kind != "Closure" and "as std::" not in b.name and "as core::" not in b.name]
+    if su is None or not roots:
+        rep.notes.append("C15-INIT: main / run() or the accumulator's functions not identified; clause not decided")
+        rep.rule("C15-INIT", 0, 0, True, "not decided")
+        return
+    cone = fx.cone(roots)
+    muts = {norm(k) for k, v in fx.statics.items() if v.get("mutable")}
+    read = set()
+    for nm in cone:
+        for (s_, kind, bb, idx) in static_accesses(fx.bodies[nm]):
+            if s_ in muts and kind not in ("write",):
+                read.add(s_)
+    writers = {}
+    for b in fx.fn_bodies():
+        if "::tests::" in b.name:
+            continue
+        for (s_, kind, bb, idx) in static_accesses(b):
+            if s_ in read and kind in ("write", "mutaddr"):
+                writers.setdefault(s_, set()).add(b.name)
+    ok = True
+    n = 0
+    for s_ in sorted(read):
+        w = writers.get(s_, set())
+        if not w:
+            continue
+        n += 1
+        late = sorted(norm(x) for x in w if x not in su)
+        good = not late
+        rep.obligation(good)
+        rep.sample({"rule": "C15-INIT", "static": s_, "writers": sorted(norm(x) for x in w), "before_run": good})
+        if not good:
+            ok = False
+            wb = fx.bodies[sorted(x for x in w if x not in su)[0]]
+            rep.violation("C15-INIT", f"C15-INIT/{s_}", f"`{s_}` is read when the accumulator is seeded or updated, but its writer {late[:2]} is not reached from a call that `main` makes before run(): a position built before that writer runs gets its base value from an all-zero table, and the incremental updates keep that error",
+                          {"fn": wb.name, "file": wb.file, "line": wb.line})
+    rep.rule("C15-INIT", n, 1, ok, "tables read by the accumulator are initialised before the command loop starts")
+
 
 
 def uncond(body, bb):
@@ -102,6 +151,24 @@ def rule_pair(fx, rep):
         rep.obligation(good)
         if not good:
             bad(f"restore/{un}", f"`{bu.name}` does not restore the accumulator from History: {why}", bu)
+        # ... and the restored value is final: nothing that runs after the restore (on any path) updates the accumulator again.
+        # The take-back edits the board directly; routing one of those edits through Game::set_at / remove_at after the snapshot
+        # was put back applies that piece's terms a second time (seed C15-5b)
+        rsites = [(bb, idx) for (bb, idx, adt, fld, kind, place) in bu.field_writes() if gh.self_game_field(place) == "incremental_eval"]
+        for cb_, t in bu.calls():
+            tb = fx.body(callee_name(t)) if callee_name(t) else None
+            if tb is None or tb is bu:
+                continue
+            touches = "incremental_eval" in gh.game_fields_written(fx, tb) and any("pl" in a and "Game" in (bu.local_ty(a["pl"]["l"]) or "") for a in t["args"])
+            direct = IEF in norm(tb.name) and tb.kind != "Closure" and any((bb2, i2) for (bb2, i2, adt2, f2, k2, pl2) in tb.field_writes() if norm(adt2) == IEF)
+            if not (touches or direct):
+                continue
+            n += 1
+            after = any(cb_ in bu.reachable(rb) and (cb_ != rb or True) for (rb, ri) in rsites)
+            good = not after
+            rep.obligation(good)
+            if not good:
+                bad(f"restore-final/{un}", f"`{bu.name}` calls `{norm(tb.name)}` (which updates the accumulator) after the accumulator has been restored from History: the piece's terms are applied on top of the restored value", bu, t.get("line"))
     # make_move / make_null_move save it (pre-move)
     for mk in ("Game::make_move", "Game::make_null_move"):
         bm = fx.one(mk)
@@ -377,6 +444,15 @@ def rule_writers(fx, rep):
 G = "src/chess/game.rs"
 E = "src/engine/eval/mod.rs"
 MUTANTS = [
+    {"name": "take-back of an en-passant capture re-adds the victim through Game::set_at (seed C15-5b)", "expect": "C15-PAIR/restore-final",
+     "edits": [("src/chess/game.rs", "            self.board\n                .set_at(capture_square, Piece::new(other_player, PieceKind::Pawn));", "            self.set_at(capture_square, Piece::new(other_player, PieceKind::Pawn));"),
+               ("src/chess/game.rs", "        self.player = player;\n        self.zobrist = history.zobrist;\n", "        self.player = player;\n"),
+               ("src/chess/game.rs", "        } else {\n            self.board.set_at(from, moved_piece);\n        }\n    }\n\n    pub fn undo_null_move", "        } else {\n            self.board.set_at(from, moved_piece);\n        }\n        self.zobrist = history.zobrist;\n    }\n\n    pub fn undo_null_move")]},
+    {"name": "evaluation tables initialised lazily, not before the command loop (seed C15-5a)", "expect": "C15-INIT",
+     "edits": [("src/main.rs", "    init();\n    run()", "    chess::init();\n    run()"),
+               ("src/engine/uci/mod.rs", "            UciCommand::IsReady => send_response(&UciResponse::ReadyOk),", "            UciCommand::IsReady => {\n                crate::engine::init();\n                send_response(&UciResponse::ReadyOk);\n            }")]},
+    {"name": "benign: main calls the two initialisers itself", "benign": True,
+     "edits": [("src/main.rs", "    init();\n    run()", "    chess::init();\n    engine::init();\n    run()")]},
     {"name": "set_at clamps the phase counter (seed C15-1)", "expect": "C15-INV",
      "edits": [("src/engine/eval/mod.rs", "        self.phase_value += phased_eval::piece_phase_value_contribution(piece.kind);\n        self.piece_square_tables += piece_square_tables::piece_contributions(sq, piece);",
                 "        self.phase_value = (self.phase_value + phased_eval::piece_phase_value_contribution(piece.kind)).min(24);\n        self.piece_square_tables += piece_square_tables::piece_contributions(sq, piece);")]},
